@@ -46,6 +46,7 @@ type token struct {
 	kind   string   // heredoc | closer-line | closer-inline
 	tail   []string // structural lines that followed the token in script 1 (e.g. ")")
 	opener string   // the script line that opened the fence, with a dummy variable name
+	bodyAt int      // heredoc: offset in the script of the first byte of the here-document body
 }
 
 func isIdentByte(c byte) bool { return isLetter(c) || isDigit(c) || c == '_' }
@@ -100,7 +101,10 @@ func extractTokens(script string, base []Var) []token {
 	}
 	lines := strings.Split(script, "\n")
 	// 1. here-document delimiters: << or <<-, optional blanks, a quoted or plain word
+	pos := 0
 	for li, line := range lines {
+		nextLine := pos + len(line) + 1
+		pos = nextLine
 		for at := 0; at+1 < len(line); at++ {
 			if line[at] != '<' || line[at+1] != '<' {
 				continue
@@ -141,7 +145,10 @@ func extractTokens(script string, base []Var) []token {
 				word.WriteByte(c)
 				j++
 			}
-			t := token{text: word.String(), kind: "heredoc"}
+			t := token{text: word.String(), kind: "heredoc", bodyAt: nextLine}
+			if t.bodyAt > len(script) {
+				t.bodyAt = -1
+			}
 			if name, eq := assignedName(line); name != "" {
 				t.owner = name
 				t.opener = "C18_DUMMY" + line[eq:]
@@ -296,6 +303,8 @@ func execReplay(c ReplayCase) hx.Verdict {
 	}
 	if len(tokens) == 0 {
 		r.lab["replay-no-token"] = true
+	} else {
+		r.lab["replay-fence-token-extracted"] = true
 	}
 	// step 3: values carrying those fences + payload
 	values := map[string]string{}
